@@ -376,7 +376,7 @@ func cmdCheck(args []string) int {
 			fmt.Printf("UNCONFIRMED property=%s harness=%s assertion=%s kind=%s: found on a symbolic schedule / map order that the native runs did not hit (%s); inputs: %s\n", prop, f.Harness, f.AssertID, f.Kind, f.ReplayOut, inputsBrief(f.Inputs))
 			inconclusive = append(inconclusive, "schedule-dependent finding not observed natively: "+f.AssertID)
 		default:
-			fmt.Printf("ENGINE-MISMATCH property=%s harness=%s assertion=%s: solver model did not reproduce natively (%s) inputs: %s\n  native: %s\n", prop, f.Harness, f.AssertID, f.Replayed, inputsBrief(f.Inputs), f.ReplayOut)
+			fmt.Printf("ENGINE-MISMATCH property=%s harness=%s assertion=%s: solver model did not reproduce natively (%s) %s inputs: %s\n  native: %s\n", prop, f.Harness, f.AssertID, f.Replayed, f.Msg, inputsBrief(f.Inputs), f.ReplayOut)
 			inconclusive = append(inconclusive, "ENGINE-MISMATCH "+f.AssertID)
 		}
 	}
